@@ -6,24 +6,25 @@ with generated / released grants) holds initially and is preserved by every even
 -/
 namespace RaftModel.P
 
-theorem invB_init (c0 : Cfg) : InvB c0 init := by
+theorem invB_init (c0 : Cfg) : InvB init := by
   constructor
   · intro t; exact ⟨[], by simp [init], by simp, by simp [init]⟩
   · intro p hp; simp [init] at hp
   · intro i t v c gh hm; simp [init] at hm
   · intro p hp; simp [init] at hp
+  · intro ec hec; simp [init] at hec
 
 /-- frame lemma: a step that changes node `i` only and leaves the ghost history alone; the grants in
 the new outbox are old ones or satisfy the up-to-date check -/
-theorem invB_node (c0 : Cfg) (s : PSys) (h : InvB c0 s) (i : Nat) (n : PNode) (s' : PSys)
+theorem invB_node (c0 : Cfg) (s : PSys) (h : InvB s) (i : Nat) (n : PNode) (s' : PSys)
     (hn : s'.nodes = upd s.nodes i n) (hll : s'.llog = s.llog) (helog : s'.elog = s.elog)
-    (hel : s'.elected = s.elected) (hrgv : s'.rgv = s.rgv)
+    (hel : s'.elected = s.elected) (hrgv : s'.rgv = s.rgv) (hec : s'.ecfgs = s.ecfgs)
     (hg : ∀ t v c gh, OMsg.grant t v c gh ∈ n.outbox →
       OMsg.grant t v c gh ∈ (s.nodes i).outbox ∨ upToDate gh.clt gh.cli gh.vlog = true) :
-    InvB c0 s' := by
+    InvB s' := by
   constructor
   · rw [hll, helog]; exact h.ll
-  · rw [hel, hrgv, helog]; exact h.eq
+  · rw [hel, hrgv, helog, hec]; exact h.eq
   · intro j t v c gh hm
     rw [hn] at hm
     by_cases hj : j = i
@@ -35,6 +36,9 @@ theorem invB_node (c0 : Cfg) (s : PSys) (h : InvB c0 s) (i : Nat) (n : PNode) (s
     · simp only [upd, hj, if_false] at hm
       exact h.gto j t v c gh hm
   · rw [hrgv]; exact h.gt
+  · intro ec hx; rw [hec] at hx
+    obtain ⟨j, hj⟩ := h.ee ec hx
+    exact ⟨j, by rw [hel]; exact hj⟩
 
 /-- a grant in an outbox extended by one acknowledgement was there before -/
 theorem grant_of_append_ack {l : List OMsg} {t v c : Nat} {gh : VGhost} {t' f idx : Nat} {pre : List LEntry}
@@ -48,11 +52,11 @@ theorem upToDate_self (l : List LEntry) : upToDate (lastTerm l) l.length l = tru
 
 /-! ### the two events that change the ghost logs -/
 
-theorem invB_win (c0 : Cfg) (hne : c0.incoming ≠ [] ∨ c0.outgoing ≠ []) (s s' : PSys) (i : Nat) (q : List Nat)
-    (h : applyEvent s (.win i c0 q) = .ok s') (hV : InvV c0 (vsys s)) (hL : InvL s) (hB : InvB c0 s) :
-    InvB c0 s' := by
-  obtain ⟨hrole, hq, hall, hrg, hs'⟩ := win_guard h
-  have hf := win_fresh c0 hne s hV hL i q hrole hq hall
+theorem invB_win (s s' : PSys) (i : Nat) (c0 : Cfg) (q : List Nat)
+    (h : applyEvent s (.win i c0 q) = .ok s') (hV : InvV (vsys s)) (hL : InvL s) (hB : InvB s) :
+    InvB s' := by
+  obtain ⟨hrole, hq, hall, hrg, hs', _, hadj, _⟩ := win_guard h
+  have hf := win_fresh s hV hL i c0 q hrole hq hall hadj
   subst hs'
   constructor
   · intro t
@@ -75,7 +79,7 @@ theorem invB_win (c0 : Cfg) (hne : c0.incoming ≠ [] ∨ c0.outgoing ≠ []) (s
   · intro p hp
     rcases List.mem_cons.1 hp with hp | hp
     · subst hp
-      refine ⟨q, hq, ?_⟩
+      refine ⟨c0, q, List.mem_cons_self, hq, ?_⟩
       intro v hv
       obtain ⟨p', hp', h1, h2, h3, h4⟩ := hrg v hv
       refine ⟨p'.2, ?_, h2, ?_⟩
@@ -84,8 +88,8 @@ theorem invB_win (c0 : Cfg) (hne : c0.incoming ≠ [] ∨ c0.outgoing ≠ []) (s
       · simp only [updT, if_true]
         rw [← h3, ← h4]; exact hB.gt p' hp'
     · have hne' : p.1 ≠ (s.nodes i).term := fun he => hf ⟨p.2, by rw [← he]; exact hp⟩
-      obtain ⟨q', hq', hall'⟩ := hB.eq p hp
-      refine ⟨q', hq', ?_⟩
+      obtain ⟨c', q', hc', hq', hall'⟩ := hB.eq p hp
+      refine ⟨c', q', List.mem_cons_of_mem _ hc', hq', ?_⟩
       simp only [updT, hne', if_false]; exact hall'
   · intro j t v c gh hm
     by_cases hj : j = i
@@ -95,10 +99,15 @@ theorem invB_win (c0 : Cfg) (hne : c0.incoming ≠ [] ∨ c0.outgoing ≠ []) (s
     · simp only [upd, hj, if_false] at hm
       exact hB.gto j t v c gh hm
   · exact hB.gt
+  · intro ec hx
+    rcases List.mem_cons.1 hx with hx | hx
+    · subst hx; exact ⟨i, List.mem_cons_self⟩
+    · obtain ⟨j, hj⟩ := hB.ee ec hx
+      exact ⟨j, List.mem_cons_of_mem _ hj⟩
 
-theorem invB_lappend (c0 : Cfg) (s : PSys) (i : Nat) (e : LEntry) (hL : InvL s) (hB : InvB c0 s)
+theorem invB_lappend (c0 : Cfg) (s : PSys) (i : Nat) (e : LEntry) (hL : InvL s) (hB : InvB s)
     (hrole : (s.nodes i).role = 2) (het : e.term = (s.nodes i).term) :
-    InvB c0 { s with nodes := upd s.nodes i { s.nodes i with log := (s.nodes i).log ++ [e] }, llog := updT s.llog (s.nodes i).term ((s.nodes i).log ++ [e]) } := by
+    InvB { s with nodes := upd s.nodes i { s.nodes i with log := (s.nodes i).log ++ [e] }, llog := updT s.llog (s.nodes i).term ((s.nodes i).log ++ [e]) } := by
   constructor
   · intro t
     by_cases ht : t = (s.nodes i).term
@@ -121,11 +130,12 @@ theorem invB_lappend (c0 : Cfg) (s : PSys) (i : Nat) (e : LEntry) (hL : InvL s) 
     · simp only [upd, hj, if_false] at hm
       exact hB.gto j t v c gh hm
   · exact hB.gt
+  · exact hB.ee
 
 /-! ### release -/
 
 theorem invB_release (c0 : Cfg) (s s' : PSys) (i : Nat) (key : OMsg)
-    (h : applyEvent s (.release i key) = .ok s') (hB : InvB c0 s) : InvB c0 s' := by
+    (h : applyEvent s (.release i key) = .ok s') (hB : InvB s) : InvB s' := by
   simp only [applyEvent, ok] at h
   split at h
   · split at h
@@ -136,7 +146,7 @@ theorem invB_release (c0 : Cfg) (s s' : PSys) (i : Nat) (key : OMsg)
         | ack t f idx pre =>
           simp only [addReleased] at h
           cases h
-          exact ⟨hB.ll, hB.eq, hB.gto, hB.gt⟩
+          exact ⟨hB.ll, hB.eq, hB.gto, hB.gt, hB.ee⟩
         | voteReq t c lt li => simp [OMsg.isAck] at hg
         | grant t vv c gh => simp [OMsg.isAck] at hg
       · cases h
@@ -148,21 +158,21 @@ theorem invB_release (c0 : Cfg) (s s' : PSys) (i : Nat) (key : OMsg)
         split at h
         · rename_i hg
           have hmem : m ∈ (s.nodes i).outbox := List.mem_of_getElem? hm
-          have hbase : InvB c0 { s with nodes := upd s.nodes i { s.nodes i with outbox := (s.nodes i).outbox.eraseIdx k } } :=
-            invB_node c0 s hB i _ _ rfl rfl rfl rfl rfl
+          have hbase : InvB { s with nodes := upd s.nodes i { s.nodes i with outbox := (s.nodes i).outbox.eraseIdx k } } :=
+            invB_node c0 s hB i _ _ rfl rfl rfl rfl rfl rfl
               (fun t v c gh hx => Or.inl (List.mem_of_mem_eraseIdx hx))
           cases m with
           | voteReq t c lt li =>
             simp only [addReleased] at h
             cases h
-            exact ⟨hbase.ll, hbase.eq, hbase.gto, hbase.gt⟩
+            exact ⟨hbase.ll, hbase.eq, hbase.gto, hbase.gt, hbase.ee⟩
           | grant t vv c gh =>
             simp only [addReleased] at h
             cases h
-            refine ⟨hbase.ll, ?_, hbase.gto, ?_⟩
+            refine ⟨hbase.ll, ?_, hbase.gto, ?_, hbase.ee⟩
             · intro p hp
-              obtain ⟨q, hq, hall⟩ := hbase.eq p hp
-              refine ⟨q, hq, ?_⟩
+              obtain ⟨c', q, hc', hq, hall⟩ := hbase.eq p hp
+              refine ⟨c', q, hc', hq, ?_⟩
               intro v hv
               obtain ⟨gh', h1, h2, h3⟩ := hall v hv
               exact ⟨gh', List.mem_cons_of_mem _ h1, h2, h3⟩
@@ -180,26 +190,26 @@ theorem invB_release (c0 : Cfg) (s s' : PSys) (i : Nat) (key : OMsg)
 /-! ### all events -/
 
 set_option maxHeartbeats 800000 in
-theorem invB_step (c0 : Cfg) (hne : c0.incoming ≠ [] ∨ c0.outgoing ≠ []) (s s' : PSys) (e : Event)
-    (hc : e.cfgOk c0) (h : applyEvent s e = .ok s')
-    (hV : InvV c0 (vsys s)) (hR : InvR s) (hL : InvL s) (hA : InvA s) (hB : InvB c0 s) : InvB c0 s' := by
+theorem invB_step (c0 : Cfg) (s s' : PSys) (e : Event)
+    (h : applyEvent s e = .ok s')
+    (hV : InvV (vsys s)) (hR : InvR s) (hL : InvL s) (hA : InvA s) (hB : InvB s) : InvB s' := by
   cases e with
   | read r =>
     simp only [applyEvent, ok] at h
     split at h
-    · cases h; exact ⟨hB.ll, hB.eq, hB.gto, hB.gt⟩
+    · cases h; exact ⟨hB.ll, hB.eq, hB.gto, hB.gt, hB.ee⟩
     · cases h
   | bump i t =>
     simp only [applyEvent, ok] at h
     split at h
     · cases h
-      exact invB_node c0 s hB i _ _ rfl rfl rfl rfl rfl (fun _ _ _ _ hm => Or.inl hm)
+      exact invB_node c0 s hB i _ _ rfl rfl rfl rfl rfl rfl (fun _ _ _ _ hm => Or.inl hm)
     · cases h
   | campaign i =>
     simp only [applyEvent, ok] at h
     split at h
     · cases h
-      refine invB_node c0 s hB i _ _ rfl rfl rfl rfl rfl ?_
+      refine invB_node c0 s hB i _ _ rfl rfl rfl rfl rfl rfl ?_
       intro t v c gh hm
       simp only [List.mem_append, List.mem_cons, List.not_mem_nil, or_false] at hm
       rcases hm with hm | hm | hm
@@ -216,7 +226,7 @@ theorem invB_step (c0 : Cfg) (hne : c0.incoming ≠ [] ∨ c0.outgoing ≠ []) (
     · rename_i r hr
       split at h
       · cases h
-        refine invB_node c0 s hB i _ _ rfl rfl rfl rfl rfl ?_
+        refine invB_node c0 s hB i _ _ rfl rfl rfl rfl rfl rfl ?_
         intro t v c' gh hm
         simp only [List.mem_append, List.mem_singleton] at hm
         rcases hm with hm | hm
@@ -233,14 +243,14 @@ theorem invB_step (c0 : Cfg) (hne : c0.incoming ≠ [] ∨ c0.outgoing ≠ []) (
     simp only [applyEvent, ok] at h
     split at h
     · cases h
-      exact invB_node c0 s hB i _ _ rfl rfl rfl rfl rfl (fun _ _ _ _ hm => Or.inl hm)
+      exact invB_node c0 s hB i _ _ rfl rfl rfl rfl rfl rfl (fun _ _ _ _ hm => Or.inl hm)
     · cases h
   | persist i k =>
     simp only [applyEvent, ok] at h
     split at h
     · split at h
       · cases h
-        exact invB_node c0 s hB i _ _ rfl rfl rfl rfl rfl (fun _ _ _ _ hm => Or.inl hm)
+        exact invB_node c0 s hB i _ _ rfl rfl rfl rfl rfl rfl (fun _ _ _ _ hm => Or.inl hm)
       · cases h
     · cases h
   | release i key => exact invB_release c0 s s' i key h hB
@@ -248,26 +258,24 @@ theorem invB_step (c0 : Cfg) (hne : c0.incoming ≠ [] ∨ c0.outgoing ≠ []) (
     simp only [applyEvent, ok] at h
     split at h
     · cases h
-      exact invB_node c0 s hB i _ _ rfl rfl rfl rfl rfl (fun _ _ _ _ hm => by cases hm)
+      exact invB_node c0 s hB i _ _ rfl rfl rfl rfl rfl rfl (fun _ _ _ _ hm => by cases hm)
     · cases h
   | restart i =>
     simp only [applyEvent, ok] at h
     split at h
     · cases h
-      refine invB_node c0 s hB i _ _ rfl rfl rfl rfl rfl ?_
+      refine invB_node c0 s hB i _ _ rfl rfl rfl rfl rfl rfl ?_
       intro t v c gh hm
       simp only [List.mem_filter, OMsg.isAck] at hm
       exact absurd hm.2 (by simp)
     · cases h
   | win i cfg q =>
-    simp only [Event.cfgOk] at hc
-    subst hc
-    exact invB_win cfg hne s s' i q h hV hL hB
+    exact invB_win s s' i cfg q h hV hL hB
   | stepDown i =>
     simp only [applyEvent, ok] at h
     split at h
     · cases h
-      exact invB_node c0 s hB i _ _ rfl rfl rfl rfl rfl (fun _ _ _ _ hm => Or.inl hm)
+      exact invB_node c0 s hB i _ _ rfl rfl rfl rfl rfl rfl (fun _ _ _ _ hm => Or.inl hm)
     · cases h
   | leaderAppend i e =>
     simp only [applyEvent, ok] at h
@@ -278,71 +286,71 @@ theorem invB_step (c0 : Cfg) (hne : c0.incoming ≠ [] ∨ c0.outgoing ≠ []) (
   | sendApp i m =>
     simp only [applyEvent, ok] at h
     split at h
-    · cases h; exact ⟨hB.ll, hB.eq, hB.gto, hB.gt⟩
+    · cases h; exact ⟨hB.ll, hB.eq, hB.gto, hB.gt, hB.ee⟩
     · cases h
   | recvApp i m =>
     simp only [applyEvent, ok] at h
     split at h
     · cases h
-      exact invB_node c0 s hB i _ _ rfl rfl rfl rfl rfl (fun _ _ _ _ hm => Or.inl (grant_of_append_ack hm))
+      exact invB_node c0 s hB i _ _ rfl rfl rfl rfl rfl rfl (fun _ _ _ _ hm => Or.inl (grant_of_append_ack hm))
     · cases h
   | ackCommitted i =>
     simp only [applyEvent, ok] at h
     split at h
     · cases h
-      exact invB_node c0 s hB i _ _ rfl rfl rfl rfl rfl (fun _ _ _ _ hm => Or.inl (grant_of_append_ack hm))
+      exact invB_node c0 s hB i _ _ rfl rfl rfl rfl rfl rfl (fun _ _ _ _ hm => Or.inl (grant_of_append_ack hm))
     · cases h
   | ackSelf i idx =>
     simp only [applyEvent, ok] at h
     split at h
     · cases h
-      exact invB_node c0 s hB i _ _ rfl rfl rfl rfl rfl (fun _ _ _ _ hm => Or.inl (grant_of_append_ack hm))
+      exact invB_node c0 s hB i _ _ rfl rfl rfl rfl rfl rfl (fun _ _ _ _ hm => Or.inl (grant_of_append_ack hm))
     · cases h
   | commitLeader i c cfg q =>
     simp only [applyEvent, ok] at h
     split at h
     · cases h
-      exact invB_node c0 s hB i _ _ rfl rfl rfl rfl rfl (fun _ _ _ _ hm => Or.inl hm)
+      exact invB_node c0 s hB i _ _ rfl rfl rfl rfl rfl rfl (fun _ _ _ _ hm => Or.inl hm)
     · cases h
   | commitApp i c m =>
     simp only [applyEvent, ok] at h
     split at h
     · cases h
-      exact invB_node c0 s hB i _ _ rfl rfl rfl rfl rfl (fun _ _ _ _ hm => Or.inl hm)
+      exact invB_node c0 s hB i _ _ rfl rfl rfl rfl rfl rfl (fun _ _ _ _ hm => Or.inl hm)
     · cases h
   | commitHB i c m =>
     simp only [applyEvent, ok] at h
     split at h
     · cases h
-      exact invB_node c0 s hB i _ _ rfl rfl rfl rfl rfl (fun _ _ _ _ hm => Or.inl hm)
+      exact invB_node c0 s hB i _ _ rfl rfl rfl rfl rfl rfl (fun _ _ _ _ hm => Or.inl hm)
     · cases h
   | commitClaim i m =>
     simp only [applyEvent, ok] at h
     split at h
     · cases h
-      exact invB_node c0 s hB i _ _ rfl rfl rfl rfl rfl (fun _ _ _ _ hm => Or.inl hm)
+      exact invB_node c0 s hB i _ _ rfl rfl rfl rfl rfl rfl (fun _ _ _ _ hm => Or.inl hm)
     · cases h
   | sendHB i to c =>
     simp only [applyEvent, ok] at h
     split at h
-    · cases h; exact ⟨hB.ll, hB.eq, hB.gto, hB.gt⟩
+    · cases h; exact ⟨hB.ll, hB.eq, hB.gto, hB.gt, hB.ee⟩
     · cases h
   | claim i idx =>
     simp only [applyEvent, ok] at h
     split at h
-    · cases h; exact ⟨hB.ll, hB.eq, hB.gto, hB.gt⟩
+    · cases h; exact ⟨hB.ll, hB.eq, hB.gto, hB.gt, hB.ee⟩
     · cases h
   | sendSnap i idx =>
     simp only [applyEvent, ok] at h
     split at h
-    · cases h; exact ⟨hB.ll, hB.eq, hB.gto, hB.gt⟩
+    · cases h; exact ⟨hB.ll, hB.eq, hB.gto, hB.gt, hB.ee⟩
     · cases h
   | installSnap i t idx sterm =>
     simp only [applyEvent, ok] at h
     split at h
     · split at h
       · cases h
-        exact invB_node c0 s hB i _ _ rfl rfl rfl rfl rfl (fun _ _ _ _ hm => Or.inl (grant_of_append_ack hm))
+        exact invB_node c0 s hB i _ _ rfl rfl rfl rfl rfl rfl (fun _ _ _ _ hm => Or.inl (grant_of_append_ack hm))
       · cases h
     · cases h
   | commitSnap i t idx sterm =>
@@ -350,22 +358,24 @@ theorem invB_step (c0 : Cfg) (hne : c0.incoming ≠ [] ∨ c0.outgoing ≠ []) (
     split at h
     · split at h
       · cases h
-        exact invB_node c0 s hB i _ _ rfl rfl rfl rfl rfl (fun _ _ _ _ hm => Or.inl hm)
+        exact invB_node c0 s hB i _ _ rfl rfl rfl rfl rfl rfl (fun _ _ _ _ hm => Or.inl hm)
       · cases h
     · cases h
   | bootstrap i donor idx =>
     simp only [applyEvent, ok] at h
     split at h
     · cases h
-      exact invB_node c0 s hB i _ _ rfl rfl rfl rfl rfl (fun _ _ _ _ hm => Or.inl hm)
+      exact invB_node c0 s hB i _ _ rfl rfl rfl rfl rfl rfl (fun _ _ _ _ hm => Or.inl hm)
     · cases h
 
-theorem invB_reach (c0 : Cfg) (hne : c0.incoming ≠ [] ∨ c0.outgoing ≠ []) (s : PSys) (h : ReachC c0 s) :
-    InvB c0 s := by
+theorem invB_reachR (s : PSys) (h : Reach s) : InvB s := by
   induction h with
-  | init => exact invB_init c0
-  | step e hr hc hs ih =>
-    exact invB_step c0 hne _ _ e hc hs (invV_reach c0 _ hr) (invR_reach c0 _ hr) (invL_reach c0 hne _ hr)
-      (invA_reach c0 _ hr) ih
+  | init => exact invB_init ⟨[], []⟩
+  | step e hr hs ih =>
+    exact invB_step ⟨[], []⟩ _ _ e hs (invV_reachR _ hr) (invR_reachR _ hr) (invL_reachR _ hr)
+      (invA_reachR _ hr) ih
+
+theorem invB_reach (c0 : Cfg) (_hne : c0.incoming ≠ [] ∨ c0.outgoing ≠ []) (s : PSys) (h : ReachC c0 s) :
+    InvB s := invB_reachR s (reach_of_reachC h)
 
 end RaftModel.P
